@@ -48,6 +48,13 @@ func TestLateJoinerThatPanicsAtOnce(t *testing.T) {
 		before := rapid.IntRange(1, 40).Draw(t, "packetsBeforeJoin")
 		point := rapid.SampledFrom([]string{"join.snapshotted", "join.registered", "none"}).Draw(t, "slowAt")
 		closePanics := rapid.Bool().Draw(t, "closePanicsToo")
+		flvConsumer := rapid.IntRange(0, 2).Draw(t, "panickingConsumerIsFLV") == 0
+		panicAt := 1
+		if flvConsumer {
+			// an FLV consumer is handed tags (metadata, sequence headers, then media): it
+			// panics on the k-th of them
+			panicAt = rapid.IntRange(1, 5).Draw(t, "panicAtTag")
+		}
 		cdc := esgen.H264
 		if h265 {
 			cdc = esgen.H265
@@ -75,8 +82,12 @@ func TestLateJoinerThatPanicsAtOnce(t *testing.T) {
 		}
 		base := s.ConsumerCount()
 		bad := mediah.NewRec("panics-at-once")
-		bad.PanicAt = 1
+		bad.PanicAt = panicAt
 		bad.ClosePanics = closePanics
+		pt := media.RTPPacket
+		if flvConsumer {
+			pt = media.FLVPacket
+		}
 		in := sched.New(25 * time.Millisecond)
 		if point != "none" {
 			in.Add(&sched.Directive{Point: point, Occ: 1, Do: func() {
@@ -89,16 +100,24 @@ func TestLateJoinerThatPanicsAtOnce(t *testing.T) {
 				in.Hook(p, o)
 			}
 		})
-		cid := s.StartConsume(bad, media.RTPPacket, "panics-at-once")
+		cid := s.StartConsume(bad, pt, "panics-at-once")
 		in.Wait(bound)
 		media.VerifSetSched(nil)
 		replayed := inband || cacheGop
-		// some more live packets: a consumer that was handed nothing at the join panics on the first of them
+		// some more live packets: a consumer that was handed nothing (or too little) at the join panics on one of them
 		for i := 0; i < 12; i++ {
 			seq++
 			s.WriteRtpPacket(latePkt(h265, i == 5, seq))
 		}
-		desc := map[string]any{"codec": cdc.String(), "cache_gop": cacheGop, "in_band_sets": inband, "packets_before_join": before, "slowed_at": point, "close_panics": closePanics}
+		if flvConsumer {
+			// the FLV converter runs on its own goroutines: keep publishing until the consumer has been handed its k-th tag
+			for i := 0; i < 400 && bad.Len() < panicAt && bad.Closed() == 0; i++ {
+				seq++
+				s.WriteRtpPacket(latePkt(h265, i%10 == 0, seq))
+				time.Sleep(500 * time.Microsecond)
+			}
+		}
+		desc := map[string]any{"codec": cdc.String(), "cache_gop": cacheGop, "in_band_sets": inband, "packets_before_join": before, "slowed_at": point, "close_panics": closePanics, "flv_consumer": flvConsumer, "panics_at": panicAt}
 		if !mediah.WaitFor(bound, func() bool { return bad.Closed() > 0 }) {
 			evid.Violation(t, "late-panic-not-closed", desc, "a consumer that panicked on its first packet was never closed (received %d)", bad.Len())
 		}
@@ -111,9 +130,9 @@ func TestLateJoinerThatPanicsAtOnce(t *testing.T) {
 				evid.Violation(t, "late-panic-isolation", desc, "the healthy consumer received %d of %d packets", healthy.Len(), seq)
 			}
 		}
-		evid.Class(fmt.Sprintf("late joiner panics at once (replay at join: %v, slowed at %s)", replayed, point))
-		if replayed && point != "none" {
-			evid.Nontrivial(evid.FP("latepanic", h265, cacheGop, inband, before, point, closePanics))
+		evid.Class(fmt.Sprintf("late joiner panics at once (replay at join: %v, slowed at %s, flv: %v)", replayed, point, flvConsumer))
+		if (replayed && point != "none") || flvConsumer {
+			evid.Nontrivial(evid.FP("latepanic", h265, cacheGop, inband, before, point, closePanics, flvConsumer, panicAt))
 		}
 	})
 }
